@@ -88,6 +88,11 @@ func dumpGoroutines() []gInfo {
 		// Only waits that another goroutine of the limiter (or the harness) must end count as
 		// blocked. "GC assist wait", "preempted", "runnable" … end by themselves.
 		blocked := blockedStates[st]
+		if st == "semacquire" && !strings.Contains(body, "sync.(*WaitGroup).Wait") {
+			// runtime-internal semaphores (e.g. an allocation starting a GC cycle waits for the
+			// world semaphore this very dump holds) end by themselves
+			blocked = false
+		}
 		out = append(out, gInfo{ID: id, State: st, Kind: kind, Blocked: blocked})
 	}
 	sort.Slice(out, func(i, j int) bool { return out[i].ID < out[j].ID })
